@@ -8,7 +8,7 @@ import models
 from nucs.solvers.backtrack_solver import BacktrackSolver
 from nucs.solvers.multiprocessing_solver import MultiprocessingSolver
 
-SB_MODELS = {"bibd", "golomb", "magic_square", "quasigroup5", "schur", "sts"}
+SB_MODELS = {"bibd", "golomb", "magic_square", "quasigroup", "quasigroup5", "schur", "sts"}
 OBJ = {"golomb": ("min", "length_idx"), "knapsack": ("max", "weight")}
 
 
